@@ -388,6 +388,7 @@ class Thread:
         st.real = _real_Thread(target=self._boot, daemon=True, name='sim-' + st.name)
         st.real.start()
         st.started = True
+        st.start_step = S.steps
         self.ident = id(st)
         S.rec('start', st.role)
         S.yield_point('start')
@@ -559,15 +560,29 @@ class Condition(_Shared):
         self._lock._owner = None
         self._lock._cnt = 0
         me.held -= 1
+        ok = False
         try:
             ok = S.block_until(lambda: tok[0], timeout, f'cond.wait {self.role}')
         finally:
             if tok in self._waiters:
                 self._waiters.remove(tok)
-        S.block_until(lambda: self._lock._owner is None, None, f'cond.reacquire {self.role}')
-        self._lock._owner = me
-        self._lock._cnt = saved
-        me.held += 1
+            # like threading.Condition: the lock is re-acquired also when the wait is interrupted by an exception
+            if not S.abort:
+                me_st = S.cur
+                saved_wait = (me_st.wait_pred, me_st.deadline, me_st.wait_desc)
+                while self._lock._owner is not None:
+                    me_st.wait_pred = lambda: self._lock._owner is None
+                    me_st.deadline = None
+                    me_st.wait_desc = f'cond.reacquire {self.role}'
+                    try:
+                        S.switch()
+                    except KeyboardInterrupt:
+                        # a second interrupt while re-acquiring: keep trying (the first exception is propagating anyway)
+                        pass
+                me_st.wait_pred, me_st.deadline, me_st.wait_desc = saved_wait
+                self._lock._owner = me
+                self._lock._cnt = saved
+                me.held += 1
         return ok
 
     def notify(self, n=1):
